@@ -534,6 +534,51 @@ func TestVerifOracleBuf(t *testing.T) {
 				pins = nil
 			}
 		}
+		// everything was read: after the release and the final recycle every buffer is back in its class
+		l.ReleasePreviousRead()
+		l.recycle()
+		for i, fl := range bm.lists {
+			if uint32(*fl.size) != *fl.cap {
+				fmt.Printf("REPLAY-VIOLATED: seed %d %v, then ReleasePreviousRead and recycle: class %d has %d free buffers of %d (a buffer leaked or was returned twice)\n", seed, trace, i, *fl.size, *fl.cap)
+				return
+			}
+		}
+	}
+	// chains handed over in shared memory: build a chain of n linked slices through the headers, give it back with
+	// recycleBuffers (the receiver's way of dropping an orphan message)
+	for n := 1; n <= 4; n++ {
+		mem := make([]byte, 1<<14)
+		bm, err := createBufferManager([]*SizePercentPair{{Size: 32, Percent: 100}}, "", mem, 0)
+		if err != nil {
+			fmt.Printf("REPLAY-VIOLATED: createBufferManager: %v\n", err)
+			return
+		}
+		var chain []*bufferSlice
+		for i := 0; i < n; i++ {
+			s, err := bm.allocShmBuffer(32)
+			if err != nil {
+				fmt.Printf("REPLAY-VIOLATED: allocShmBuffer: %v\n", err)
+				return
+			}
+			s.append(byte(i + 1))
+			chain = append(chain, s)
+		}
+		for i := 0; i < n; i++ {
+			if i+1 < n {
+				chain[i].nextSlice = chain[i+1]
+			}
+			chain[i].update()
+		}
+		head, err := bm.readBufferSlice(chain[0].offsetInShm)
+		if err != nil {
+			fmt.Printf("REPLAY-VIOLATED: readBufferSlice of a freshly written chain head: %v\n", err)
+			return
+		}
+		bm.recycleBuffers(head)
+		if fl := bm.lists[0]; uint32(*fl.size) != *fl.cap {
+			fmt.Printf("REPLAY-VIOLATED: a chain of %d linked slices given back with recycleBuffers: %d free buffers of %d\n", n, *fl.size, *fl.cap)
+			return
+		}
 	}
 	fmt.Println("REPLAY-NO-VIOLATION")
 }
@@ -660,7 +705,8 @@ func oracleReplay(e *Engine, o *Obligation, dir string) (bool, string) {
 	case "(*linkedBuffer).ReadBytes", "(*linkedBuffer).Peek", "(*linkedBuffer).Discard", "(*linkedBuffer).ReadByte", "(*linkedBuffer).ReadString", "(*linkedBuffer).read",
 		"(*linkedBuffer).readNextSlice", "(*linkedBuffer).Len", "(*linkedBuffer).appendBufferSlice", "(*linkedBuffer).cleanPinnedList", "(*linkedBuffer).ReleasePreviousRead",
 		"(*bufferSlice).append", "(*bufferSlice).reserve", "(*bufferSlice).read", "(*bufferSlice).peek", "(*bufferSlice).skip", "(*bufferSlice).size", "(*bufferSlice).remain",
-		"(*sliceList).pushBack", "(*sliceList).popFront", "(*sliceList).front", "(*sliceList).back":
+		"(*sliceList).pushBack", "(*sliceList).popFront", "(*sliceList).front", "(*sliceList).back",
+		"(*linkedBuffer).recycle", "(*linkedBuffer).clean", "(*bufferManager).recycleBuffers", "(*bufferSlice).update", "(*bufferManager).readBufferSlice":
 		which = "buf"
 	default:
 		return false, ""
@@ -688,7 +734,7 @@ func oracleReplay(e *Engine, o *Obligation, dir string) (bool, string) {
 	}
 	if which == "buf" {
 		src = oracleBufTest
-		runName, what = "^TestVerifOracleBuf$", "byte pipe (bounded search: 60 seeded random sequences of WriteBytes/Reserve/WriteByte followed by ReadBytes/Peek/Discard/ReadByte/ReadString/read of random sizes over 16/64/256-byte slices, compared with a reference byte queue; zero-copy results re-checked until ReleasePreviousRead)"
+		runName, what = "^TestVerifOracleBuf$", "byte pipe (bounded search: 60 seeded random sequences of WriteBytes/Reserve/WriteByte followed by ReadBytes/Peek/Discard/ReadByte/ReadString/read of random sizes over 16/64/256-byte slices, compared with a reference byte queue; zero-copy results re-checked until ReleasePreviousRead; afterwards every buffer must be back in its class; chains of 1..4 linked slices given back with recycleBuffers)"
 	}
 	if which == "list" {
 		src = oracleListTest
